@@ -1,6 +1,7 @@
 """C28 Every persisted record reads back as written (K7 codec agreement)."""
 import re
 from lib.facts import norm, callee_matches, callee_name
+from lib import tables
 from lib.rules import arg_desc, who_calls, agg_sites
 from lib.tables import enumerate_paths, describe
 
@@ -68,6 +69,15 @@ def seqs(ctx, b, success):
 
 
 def rule_records(ctx):
+    # `(tag, time).0` is described as `tag`: this rule keys on no tuple description
+    tables.OPTS['tuple_proj'] = True
+    try:
+        _records(ctx)
+    finally:
+        tables.OPTS['tuple_proj'] = False
+
+
+def _records(ctx):
     for w, r in RECORDS:
         wb = ctx.facts.find(w)
         rb = ctx.facts.find(r)
@@ -77,7 +87,8 @@ def rule_records(ctx):
         wb, rb = wb[0], rb[0]
         ctx.bodies.add(wb.nid)
         ctx.bodies.add(rb.nid)
-        ws = seqs(ctx, wb, lambda o: o.startswith('Result::Ok'))
+        # success of a writer: `Ok(())`, or the result of a last compose call returned as is (`x.compose(w)` in tail position)
+        ws = seqs(ctx, wb, lambda o: o.startswith('Result::Ok') or (o.startswith('call:') and 'ompose' in o.split('(')[0] and not o.endswith('@Break.0')))
         # a reader may return Ok(None) for "no more records": only full records count
         rs = seqs(ctx, rb, lambda o: o.startswith('Result::Ok') and o != 'Result::Ok(Option::None())')
         name = w.split('::')[-2]
@@ -122,6 +133,12 @@ def rule_records(ctx):
     for p in enumerate_paths(ur, ctx.facts):
         m = re.search(r'UpdateStatus::(\w+)\(', p.outcome or '')
         tagv = [sorted(l)[0] for v, l in p.cond_map().items() if 'parse' in v and v.endswith('@Continue.0') and len(l) == 1]
+        if not tagv:
+            # `if tag == 0 {..} else if tag == 1 {..}`: the tag is the constant of the comparison that holds
+            for v, l in p.cond_map().items():
+                mm = re.match(r'^cmp\(.*parse.*@Continue\.0,const\((\d+)\)\)$', v)
+                if mm and set(l) == {'Equal'}:
+                    tagv = [mm.group(1)]
         if m and tagv:
             rt[m.group(1)] = 'const(%s)' % tagv[0]
     ctx.check(bool(wt) and wt == rt, 'K7', 'UpdateStatus:tags', 'tags agree: %s' % wt, 'UpdateStatus tags written %s vs read %s' % (wt, rt))
